@@ -154,12 +154,28 @@ def order(cfg, crate, rep):
     after = common.mir_reachable(body, w1)
     allowed = ("cert::PemCertifiedKey::write", "cert::Ca::serialize_pem", "cert::EndEntity::serialize_pem", "Try>::branch", "FromResidual", "std::ops::Try::branch", "from_residual", "std::convert::From::from", "drop_in_place", "Deref", "as_ref", "::deref", "into")
     bad = []
+
+    def _helper_ok(fn_, depth=0):
+        """a helper added by a later change that itself only serialises / writes / plumbs errors"""
+        b_ = crate.bodies.get(fn_)
+        if depth > 4 or not b_ or "mir" not in b_ or fn_ in known_fns(crate.name):
+            return False
+        for blk_ in common.mir_blocks(b_).values() if isinstance(common.mir_blocks(b_), dict) else common.mir_blocks(b_):
+            t_ = blk_["term"]
+            if t_["k"] == "Call" and not blk_.get("cleanup"):
+                c_ = common.facts_norm(t_.get("inst") or t_.get("callee") or "")
+                c0_ = common.facts_norm(t_.get("callee") or "")
+                if any(a in c_ or a in c0_ for a in allowed):
+                    continue
+                if not _helper_ok(c0_ if c0_ in crate.bodies else c_, depth + 1):
+                    return False
+        return True
     for bid in after:
         t = blocks[bid]["term"]
         if t["k"] == "Call":
             c = common.facts_norm(t.get("inst") or t.get("callee") or "")
             c0 = common.facts_norm(t.get("callee") or "")
-            if bid != w1 and not any(a in c or a in c0 for a in allowed):
+            if bid != w1 and not any(a in c or a in c0 for a in allowed) and not _helper_ok(c0 if c0 in crate.bodies else c):
                 bad.append(c0)
     rep.ob("C18.order", key + "|after-first-write", not bad, "after the first write only serialisation and writes follow", found=bad)
     # every fallible call in main is propagated with `?`
@@ -296,6 +312,15 @@ def names(cfg, crate, ctx, rep):
 
     def new_coll(v):
         v = ret_coll(v)
+        from interp import MutV as _MutV, SnapV as _SnapV
+        if isinstance(v, _SnapV):
+            v = v.mv
+        if isinstance(v, _MutV):
+            # `let mut p = Self::default(); p.subject_alt_names = names; Ok(p)`: the last assignment to the field
+            for o in reversed(v.ops):
+                if o[0] == "assign" and o[1] == ".subject_alt_names":
+                    return o[2]
+            v = core(v.base)
         return v.fields.get("subject_alt_names") if isinstance(v, StructV) else None
     got = classify(crate, "parse_sans", ret_coll)
     want = {"element": "hosts[]", "parsed_as": "IpAddr", "Ok": "IpAddress(parsed address)", "Err": "DnsName(validated name (error propagated))"}
@@ -395,6 +420,11 @@ def builders(cfg, crate, rep, tables):
     I, out = muts_of(fn)
     assigns = {p[0]: core(p[1]).r() for t, k, p, n, f, c in I.muts if f == fn and k == "assign"}
     pushes = [core(p[0]).r().split("::")[-1].replace("{}", "") for t, k, p, n, f, c in I.muts if f == fn and k.endswith("Vec::push")]
+    # `v.extend([a, b, c])` / `extend_from_slice(&[..])` with a literal list is the same three pushes
+    from interp import ArrayV
+    for t, k, p, n, f, c in I.muts:
+        if f == fn and k.endswith(("::extend", "::extend_from_slice")) and p and isinstance(core(p[0]), ArrayV):
+            pushes += [core(x).r().split("::")[-1].replace("{}", "") for x in core(p[0]).items]
     rep.ob("C18.builders", "%s|%s" % (cfg, fn), "Ca" in assigns.get(".is_ca", "") and "Unconstrained" in assigns.get(".is_ca", "") and {"KeyCertSign", "CrlSign"} <= set(pushes), "the CA is a CA (unconstrained) with certificate-signing and CRL-signing usage", found={"assign": assigns, "key_usages": pushes})
     fn = "cert::EndEntityBuilder::new"
     I, out = muts_of(fn)
